@@ -60,6 +60,7 @@ var linkConfigs = []wire.Config{
 	{Kind: wire.Pipe}, {Kind: wire.InMem},
 	{Kind: wire.Stateful, JSON: true, Store: true}, {Kind: wire.Stateful, NoStandalone: true, Store: true},
 	{Kind: wire.Stateful, JSON: true, NoStandalone: true}, {Kind: wire.Stateless, JSON: true},
+	{Kind: wire.SSE}, {Kind: wire.Pipe}, {Kind: wire.InMem}, // (listed twice: drawn more often)
 }
 
 // outsideOK: a request made on the ServerSession outside any handler can reach the client, or is refused at
@@ -817,7 +818,7 @@ func runLinksInBubble(s LScript) (res vt.Result) {
 	w.mu.Lock()
 	clientDown := w.blockers[finalClient].returned()
 	w.mu.Unlock()
-	if clientDown {
+	if clientDown && isHTTP {
 		// ClientSession.Close has returned (whatever the server does from here on, it is still up): nothing the
 		// client's HTTP connection started may still be running - hanging GET readers, reconnection loops, timers.
 		for _, g := range bubbleGoroutines() {
@@ -887,6 +888,9 @@ func runLinksInBubble(s LScript) (res vt.Result) {
 	}
 	sort.Strings(cl)
 	res.Class(cl...)
+	if s.Version == "" && s.Listen && (s.Link.Kind == wire.InMem || s.Link.Kind == wire.Pipe || s.Link.Kind == wire.Stateless) {
+		res.Class("parked_subscriptions_listen")
+	}
 	if wasCut {
 		res.Class("cut")
 	} else {
